@@ -16,7 +16,13 @@ def sanitize_tokens(tokens: Iterable[Token]) -> Iterable[Token]:
         - possible more in the future
     """
     for token in tokens:
-        if token.token == ".":  # noqa: S105
+        if token.token == "." and not (  # noqa: S105
+            token.source
+            and token.source_start is not None
+            and token.source[token.source_start] == "`"
+        ):
+            # A bare `.` is the wildcard operator; a backtick-quoted one is a
+            # (strangely named) column like any other quoted name.
             token.kind = Token.Kind.OPERATOR
         if token.kind is Token.Kind.PYTHON:
             token.token = sanitize_python_code(token.token)
